@@ -175,6 +175,101 @@ SubIdentity == /\ \A i \in 1..n : LET k == Keep(Asc(Nodes, 0), AllEdgeSeq)[i] IN
                      k.old = i-1 /\ [j \in 1..Len(k.out) |-> k.out[j].to] = adj[i]
 
 -----------------------------------------------------------------------------
+-----------------------------------------------------------------------------
+(***************************************************************************)
+(* Algorithm layer: the procedures the library actually runs, transcribed  *)
+(* step for step, and checked against the definitions above on every       *)
+(* enumerated graph (design-level assurance; configuration Graph_alg.cfg). *)
+(*   CHK      Cooper-Harvey-Kennedy iterative dominators (graphalg.IDom)   *)
+(*   DFCode   the frontier walk of graphalg.DomFrontier                    *)
+(*   Tarjan   graphalg.SCC with the low-link / stack discipline            *)
+(***************************************************************************)
+\* predecessors of b in the order MakeBiGraph lists them (by source node, then edge position)
+RECURSIVE PredsFrom(_,_)
+PredsFrom(b, u) == IF u >= n THEN <<>>
+                   ELSE SelectSeq(Out(u), LAMBDA v : v = b) \o PredsFrom(b, u + 1)
+\* SelectSeq keeps the matching targets; each stands for one edge from u, so replace them by u
+PredList(b) == LET RECURSIVE P(_)
+                   P(u) == IF u >= n THEN <<>> ELSE [i \in 1..Len(SelectSeq(Out(u), LAMBDA v : v = b)) |-> u] \o P(u + 1)
+               IN P(0)
+PosIn(sq, x) == CHOOSE i \in 1..Len(sq) : sq[i] = x
+RECURSIVE Intersect(_,_,_,_)
+Intersect(idom, po, b1, b2) ==
+   IF b1 = b2 THEN b1
+   ELSE IF PosIn(po, b1) < PosIn(po, b2) THEN Intersect(idom, po, idom[b1], b2)
+   ELSE Intersect(idom, po, b1, idom[b2])
+RECURSIVE FoldPreds(_,_,_,_)
+FoldPreds(idom, po, ps, new) == IF ps = <<>> THEN new
+   ELSE LET p == Head(ps) IN
+        IF idom[p] = -1 THEN FoldPreds(idom, po, Tail(ps), new)
+        ELSE FoldPreds(idom, po, Tail(ps), IF new = -1 THEN p ELSE Intersect(idom, po, p, new))
+RECURSIVE Sweep(_,_,_,_,_)
+\* one pass over the reverse post-order; returns <<idom, changed>>
+Sweep(idom, po, r, i, changed) ==
+   IF i < 1 THEN <<idom, changed>>
+   ELSE LET b == po[i] IN
+        IF b = r THEN Sweep(idom, po, r, i - 1, changed)
+        ELSE LET nw == FoldPreds(idom, po, PredList(b), -1) IN
+             IF idom[b] # nw THEN Sweep([idom EXCEPT ![b] = nw], po, r, i - 1, TRUE)
+             ELSE Sweep(idom, po, r, i - 1, changed)
+RECURSIVE Iterate(_,_,_,_)
+Iterate(idom, po, r, fuel) == LET s == Sweep(idom, po, r, Len(po), FALSE) IN
+   IF ~s[2] \/ fuel = 0 THEN <<s[1], fuel>> ELSE Iterate(s[1], po, r, fuel - 1)
+CHK(r) == LET po == DFS(r).post
+              res == Iterate([v \in Nodes |-> IF v = r THEN r ELSE -1], po, r, 2 * n + 2)
+          IN [idom |-> [res[1] EXCEPT ![r] = -1], fuel |-> res[2]]
+\* graphalg.DomFrontier: for every reachable b with at least two incoming edges, walk up from each reachable predecessor
+RECURSIVE Walk(_,_,_,_,_)
+Walk(df, idom, runner, stop, b) == IF runner = stop THEN df
+   ELSE Walk([df EXCEPT ![runner] = @ \cup {b}], idom, idom[runner], stop, b)
+RECURSIVE WalkPreds(_,_,_,_,_)
+WalkPreds(df, idom, r, ps, b) == IF ps = <<>> THEN df
+   ELSE LET p == Head(ps) IN
+        IF idom[p] = -1 /\ p # r THEN WalkPreds(df, idom, r, Tail(ps), b)
+        ELSE WalkPreds(Walk(df, idom, p, idom[b], b), idom, r, Tail(ps), b)
+RECURSIVE DFNodes(_,_,_,_)
+DFNodes(df, idom, r, b) == IF b >= n THEN df
+   ELSE IF (idom[b] = -1 /\ b # r) \/ Len(PredList(b)) < 2 THEN DFNodes(df, idom, r, b + 1)
+   ELSE DFNodes(WalkPreds(df, idom, r, PredList(b), b), idom, r, b + 1)
+DFCode(r) == DFNodes([v \in Nodes |-> {}], CHK(r).idom, r, 0)
+
+\* Tarjan's algorithm as graphalg.SCC runs it.  st = [low, index, stack, comp, ncomp]
+\* low[v] = 0: unvisited; Done: already assigned to a component
+Done == 1000000
+RECURSIVE Connect(_,_), ConnectOut(_,_,_,_)
+ConnectOut(st, nid, outs, mn) ==
+   IF outs = <<>> THEN <<st, mn>>
+   ELSE LET o == Head(outs)
+            s1 == IF st.low[o] = 0 THEN Connect(st, o) ELSE st
+            m1 == IF s1.low[o] < mn THEN s1.low[o] ELSE mn
+        IN ConnectOut(s1, nid, Tail(outs), m1)
+RECURSIVE PopTo(_,_)
+PopTo(st, nid) ==   \* pop the stack down to and including nid, giving every popped node the new component id
+   LET top == st.stack[Len(st.stack)]
+       s1 == [st EXCEPT !.low[top] = Done, !.comp[top] = st.ncomp, !.stack = SubSeq(st.stack, 1, Len(st.stack) - 1)]
+   IN IF top = nid THEN s1 ELSE PopTo(s1, nid)
+Connect(st, nid) ==
+   LET s0 == [st EXCEPT !.low[nid] = st.index, !.index = st.index + 1, !.stack = Append(st.stack, nid)]
+       r == ConnectOut(s0, nid, Out(nid), st.index)
+       s1 == r[1]  mn == r[2]
+   IN IF mn < s1.low[nid] THEN [s1 EXCEPT !.low[nid] = mn]
+      ELSE LET s2 == PopTo(s1, nid) IN [s2 EXCEPT !.ncomp = s2.ncomp + 1]
+RECURSIVE TarjanFrom(_,_)
+TarjanFrom(st, v) == IF v >= n THEN st ELSE TarjanFrom(IF st.low[v] = 0 THEN Connect(st, v) ELSE st, v + 1)
+Tarjan == TarjanFrom([low |-> [v \in Nodes |-> 0], index |-> 1, stack |-> <<>>, comp |-> [v \in Nodes |-> -1], ncomp |-> 0], 0)
+
+AlgAgrees ==
+  /\ \A r \in Nodes : LET c == CHK(r) IN
+        /\ c.fuel > 0                                                          \* the iteration reaches its fixpoint (terminates)
+        /\ \A v \in Nodes : c.idom[v] = IDomOf(r, v)
+        /\ LET dfc == DFCode(r)  care == IF InDeg(r) = 1 THEN {r} ELSE {} IN
+           \A x \in Reach(r) : dfc[x] \ care = DF(r, x) \ care
+  /\ LET t == Tarjan IN
+        /\ t.stack = <<>>
+        /\ \A u, v \in Nodes : (t.comp[u] = t.comp[v]) <=> (Comp(u) = Comp(v))     \* components = classes of mutual reachability
+        /\ {t.comp[u] : u \in Nodes} = 0..(t.ncomp - 1)
+        /\ \A u \in Nodes : \A v \in Succ(u) : t.comp[u] # t.comp[v] => t.comp[u] > t.comp[v]   \* reverse topological numbering
+
 \* case emission (the invariant is FALSE, i.e. a specification error, if a design check fails)
 EmitMain ==
   LET info == [i \in 1..n |-> RootInfo(i-1)]
